@@ -62,8 +62,21 @@ def cursor_rule(ctx):
         guard_drops = [i for i, blk in enumerate(b.blocks) if not blk.get("cleanup") and blk["term"]["k"] == "drop" and
                        ("MutexGuard" in b.local_ty(blk["term"]["p"][0]) or "TryLockResult" in b.local_ty(blk["term"]["p"][0])
                         or "LockResult" in b.local_ty(blk["term"]["p"][0]))]
+        # a private helper (module-restricted, not a trait method) whose every caller is a `&mut self` method of
+        # FileStorage passing its own receiver runs with exclusive access to the storage: no second reader can exist
+        exclusive = False
+        if str(b.d.get("vis", "")).startswith("Restricted") and not b.d.get("impl_trait"):
+            ups = common.callers_of(fa, common.norm(b.npath), "agdb")
+            exclusive = bool(ups) and all(
+                ub.d.get("impl_self") == FS and ub.d["argc"] >= 1 and ub.local_ty(1).startswith("&mut") and
+                tj["a"] and (cfg.op_origin(ub, tj["a"][0]) or (0, []))[0] == 1 and not (cfg.op_origin(ub, tj["a"][0]) or (0, [1]))[1]
+                for ub, j, tj in ups)
         for i, t in uses:
             n_uses += 1
+            if exclusive:
+                ctx.ob("R23b", "%s:use-of-self.file@%s" % (common.norm(b.npath), (cfg.callee(t) or "?").split("::")[-1]), True,
+                       "private helper called only from `&mut self` methods on their own receiver (exclusive access)", b.loc(i))
+                continue
             under = bool(ok_edges) and cfg.find_path(b, [0], [i], removed_edges=ok_edges) is None
             early = under and any(cfg.find_path(b, [e[1]], [i], avoid=[]) is not None and
                                   cfg.find_path(b, [e[1]], [i], avoid=guard_drops) is None for e in ok_edges)
